@@ -6,7 +6,7 @@ Used by tools/c15_variants.py to build the code variants that correspond to the 
 flags of coq/Oscore/Replay.v.  Repairs: 1 bit index + window bound (cb9fc9c), 2 shift guard
 (571e76a), 3 rollback of last_seq 0 (05246a2), 4 no last_seq write before authentication
 (b8dc44c), 5 arming without B.1.2 (3130828), 6 rollback for responses (5c1cf0c), 7 no last_seq
-write in the response branch (3c123b6)."""
+write in the response branch (3c123b6), 8 rollback on every exit before authentication (b199955; to take 6 out, take 8 out first)."""
 import sys
 n = int(sys.argv[1])
 R = sys.argv[2]
@@ -60,15 +60,15 @@ if n == 4:
      * 8.2 Step 2""", """  if (coap_request) {
     /*
      * 8.2 Step 2""")
-    rep("src/coap_oscore.c", """      goto error_no_ack;
-    }
-
+    rep("src/coap_oscore.c", """
     incoming_seq =
         coap_decode_var_bytes8(cose->partial_iv.s, cose->partial_iv.length);
     rcp_ctx->last_seq = incoming_seq;
-  } else { /* !coap_request */""", """      goto error_no_ack;
-    }
-  } else { /* !coap_request */""")
+  } else { /* !coap_request */
+    /*
+     * 8.4 Step 2""", """  } else { /* !coap_request */
+    /*
+     * 8.4 Step 2""")
 if n == 5:
     rep("src/coap_oscore.c", """#if COAP_SERVER_SUPPORT
   /* Appendix B.1.2 request Trap */
@@ -141,4 +141,82 @@ if n == 7:
         goto error;
       }
 """)
+if n == 8:
+    rep("src/coap_oscore.c", """    if (rcp_ctx->initial_state == 0 &&
+        !oscore_validate_sender_seq(rcp_ctx, cose)) {
+      coap_log_warn("OSCORE: Replayed or old message\\n");
+      build_and_send_error_pdu(session,
+                               pdu,
+                               COAP_RESPONSE_CODE(401),
+                               "Replay detected",
+                               NULL,
+                               NULL,
+                               0);
+      goto error_no_ack;
+    }
+  } else { /* !coap_request */""", """    if (rcp_ctx->initial_state == 0) {
+      if (!oscore_validate_sender_seq(rcp_ctx, cose)) {
+        coap_log_warn("OSCORE: Replayed or old message\\n");
+        build_and_send_error_pdu(session,
+                                 pdu,
+                                 COAP_RESPONSE_CODE(401),
+                                 "Replay detected",
+                                 NULL,
+                                 NULL,
+                                 0);
+        goto error_no_ack;
+      }
+      /* The replay window is now updated, undo that unless the request authenticates */
+      seq_validated = 1;
+    }
+  } else { /* !coap_request */""")
+    rep("src/coap_oscore.c", """        /* The replay window is now updated, undo that if decryption fails */
+        seq_validated = 1;""", """        /* The replay window is now updated, undo that unless the response authenticates */
+        seq_validated = 1;""")
+    rep("src/coap_oscore.c", """                               0);
+      oscore_roll_back_seq(rcp_ctx);
+      goto error_no_ack;
+    } else {
+      if (seq_validated)
+        oscore_roll_back_seq(rcp_ctx);
+      coap_handle_event_lkd(session->context,
+                            COAP_EVENT_OSCORE_DECRYPTION_FAILURE,
+                            session);
+    }
+    goto error;
+  }
+
+  assert((size_t)pltxt_size < pdu->alloc_size + pdu->max_hdr_size);
+""", """                               0);
+      goto error_no_ack;
+    } else {
+      coap_handle_event_lkd(session->context,
+                            COAP_EVENT_OSCORE_DECRYPTION_FAILURE,
+                            session);
+    }
+    goto error;
+  }
+
+  assert((size_t)pltxt_size < pdu->alloc_size + pdu->max_hdr_size);
+
+  /* The message is authentic: the update of the replay window stands */
+  seq_validated = 0;
+""")
+    rep("src/coap_oscore.c", """error:
+  coap_send_ack_lkd(session, pdu);
+error_no_ack:
+  if (association && association->is_observe == 0)
+    oscore_delete_association(session, association);
+  coap_delete_pdu(decrypt_pdu);""", """error:
+  coap_send_ack_lkd(session, pdu);
+error_no_ack:
+  /*
+   * Whatever stopped the processing of a message that is not authenticated
+   * (decryption failure, no memory, ...), it must not stay in the replay window.
+   */
+  if (seq_validated)
+    oscore_roll_back_seq(rcp_ctx);
+  if (association && association->is_observe == 0)
+    oscore_delete_association(session, association);
+  coap_delete_pdu(decrypt_pdu);""")
 print(("reverted" if REV else "applied"), n)
